@@ -88,13 +88,19 @@ class Interface(ModelElement):
             # collect a list of interface nodes it attaches to for DedicatedPorts only
             self._interfaces = list()
             if self.type == InterfaceType.DedicatedPort:
-                interface_list = self.topo.graph_model.get_all_child_connection_points(interface_id=self.node_id)
-                name_id_tuples = list()
-                # need to look up their names - a bit inefficient, need to think about this /ib
-                for iff in interface_list:
-                    _, props = self.topo.graph_model.get_node_properties(node_id=iff)
-                    name_id_tuples.append((props[ABCPropertyGraph.PROP_NAME], iff))
-                self._interfaces = [Interface(node_id=tup[1], topo=topo, name=tup[0]) for tup in name_id_tuples]
+                self._load_interfaces()
+
+    def _load_interfaces(self):
+        """
+        (Re)read the list of sub-interfaces from the model
+        """
+        interface_list = self.topo.graph_model.get_all_child_connection_points(interface_id=self.node_id)
+        name_id_tuples = list()
+        # need to look up their names - a bit inefficient, need to think about this /ib
+        for iff in interface_list:
+            _, props = self.topo.graph_model.get_node_properties(node_id=iff)
+            name_id_tuples.append((props[ABCPropertyGraph.PROP_NAME], iff))
+        self._interfaces = [Interface(node_id=tup[1], topo=self.topo, name=tup[0]) for tup in name_id_tuples]
 
     @property
     def type(self):
@@ -170,8 +176,8 @@ class Interface(ModelElement):
                     self.topo.graph_model.remove_cp_and_links(node_id=peer_id)
 
         self.topo.graph_model.remove_cp_and_links(node_id=node_id, delete_parent=False)
-        # remove from interface list as well
-        self._interfaces = list(filter((lambda x: x.node_id != node_id), self._interfaces))
+        # bring the interface list up to date (sub-interfaces may also have been added through another handle)
+        self._load_interfaces()
 
     def __list_interfaces(self) -> ViewOnlyDict:
         """
